@@ -1,7 +1,7 @@
 (* C16_Props.v — the property theorems of C16 and nothing else.
    Histories are ARBITRARY lists of actions; every action is one critical section of
    tracer.go / builder.go, so every interleaving of the goroutines is one such list. *)
-From V Require Import C16_Spec C16_Proofs C16_Conc C16_ConcProofs.
+From V Require Import C16_Spec C16_Proofs C16_Conc C16_ConcProofs C16_Mw C16_MwProofs.
 Open Scope N_scope.
 
 (* The slot map always shows what the history says: the latest Init/Clear of the name
@@ -139,6 +139,111 @@ Theorem two_step_add : forall nm sched,
 Proof. exact two_step_add_proof. Qed.
 Print Assumptions two_step_add.
 
+(* ---- the call sites: middleware.go / reader.go ---- *)
+(* whatever a wrapper does for an exchange, its builder sees exactly the add / build calls of the
+   list, so every builder theorem above (once_per_op, frozen, indices, no_event_after_finish)
+   holds for every traced HTTP operation *)
+Theorem mw_builder_view : forall nm acts, (mwrun nm acts).(m_b) = brun nm (bacts_of acts).
+Proof. exact mw_builder_view_proof. Qed.
+Print Assumptions mw_builder_view.
+
+(* in the list of operations TracingHandler / TracingRoundTripper perform for ANY exchange
+   (failing writes, panics, early closes, cancellation points, request-body errors included),
+   every write to the Trailer map of the response the trace points to precedes the wrapper's
+   own finishing add (end of the response body, round-trip error) *)
+Theorem mutations_before_finish :
+  (forall x, mutations_precede_finish (server_script x)) /\
+  (forall y, mutations_precede_finish (client_script y)).
+Proof. exact mutations_before_finish_proof. Qed.
+Print Assumptions mutations_before_finish.
+
+(* for ARBITRARY lists of add / build / trailer writes: if no write follows the action that
+   hands the trace over, what every collector call saw is what the trace shows at the end *)
+Theorem delivered_trace_final : forall nm acts,
+  cells_before_terminal acts ->
+  forall s, In s (mwrun nm acts).(m_snaps) -> s = (mwrun nm acts).(m_cell).
+Proof. exact delivered_trace_final_proof. Qed.
+Print Assumptions delivered_trace_final.
+
+(* hence: when nothing but the response path ends the operation (no cancellation point, no
+   request-body error — otherwise see ex_cancel_then_trailers), the trace is delivered WITH
+   the trailers and nothing it points to is written afterwards *)
+Theorem delivered_with_trailers :
+  (forall x nm s, server_undisturbed x ->
+     In s (mwrun nm (server_script x)).(m_snaps) -> s = (mwrun nm (server_script x)).(m_cell)) /\
+  (forall y nm s, client_undisturbed y ->
+     In s (mwrun nm (client_script y)).(m_snaps) -> s = (mwrun nm (client_script y)).(m_cell)).
+Proof. exact delivered_with_trailers_proof. Qed.
+Print Assumptions delivered_with_trailers.
+
+(* one exchange, at most one collector call, one snapshot per call *)
+Theorem mw_once : forall nm acts,
+  (length (mwrun nm acts).(m_b).(b_calls) <= 1)%nat /\
+  length (mwrun nm acts).(m_snaps) = length (mwrun nm acts).(m_b).(b_calls).
+Proof. exact mw_once_proof. Qed.
+Print Assumptions mw_once.
+
+(* ---- consumer: results.go fetchTrace (histories = arbitrary lists of Init / Complete / Clear /
+   setOutcome / timeout; every fetch goroutine runs to its end or to its select between actions) ---- *)
+(* a trace enters r.traces only as the result of a fetch goroutine's successful Await, while
+   the outcome is a plain failure *)
+Theorem fetch_stores_only_awaited : forall h a n t,
+  (frunf (h ++ [a])).(f_stored) n = Some t ->
+  (frunf h).(f_stored) n = Some t \/
+  exists w, In (w, n) (fapply (frunf h) a).(f_live) /\
+            (fapply (frunf h) a).(f_tr).(waiters) w = Got t /\ (fapply (frunf h) a).(f_wants) n = true.
+Proof. exact fetch_stores_only_awaited_proof. Qed.
+Print Assumptions fetch_stores_only_awaited.
+
+(* a fetch for a name without a slot fails at once and changes NOTHING that was stored *)
+Theorem fetch_failed_keeps : forall h n wt,
+  (frunf h).(f_tr).(slots) n = None ->
+  (frunf (h ++ [FOutcome n wt])).(f_stored) = (frunf h).(f_stored).
+Proof. exact fetch_failed_keeps_proof. Qed.
+Print Assumptions fetch_failed_keeps.
+
+(* the first stored trace is kept: from the moment it is stored (store_clears: the name has no
+   slot then) until the name is initialised again, whatever else happens *)
+Theorem first_stored_kept : forall h1 h2 n t,
+  (frunf h1).(f_stored) n = Some t -> (frunf h1).(f_tr).(slots) n = None ->
+  (forall a, In a h2 -> a <> FInit n) ->
+  (frunf (h1 ++ h2)).(f_stored) n = Some t /\ (frunf (h1 ++ h2)).(f_tr).(slots) n = None.
+Proof. exact first_stored_kept_proof. Qed.
+Print Assumptions first_stored_kept.
+Theorem store_clears : forall h a n t,
+  (frunf (h ++ [a])).(f_stored) n = Some t -> (frunf h).(f_stored) n <> Some t ->
+  (frunf (h ++ [a])).(f_tr).(slots) n = None.
+Proof. exact store_clears_proof. Qed.
+Print Assumptions store_clears.
+
+(* ---- consumer: wire_details.go ---- *)
+(* a second hand-over to a wrapper that has its trace crashes (close of a closed channel) *)
+Theorem wire_second_crashes : forall fwd s c x a,
+  s.(wr) c = Some (Some x) -> sets_ctx c a = true -> wstep fwd s a = None.
+Proof. exact wire_second_crashes_proof. Qed.
+Print Assumptions wire_second_crashes.
+(* the trace a wrapper received stays, whatever else happens, until the context is replaced *)
+Theorem wire_first_kept : forall fwd h s s' c x,
+  wrun_from fwd s h = Some s' -> s.(wr) c = Some (Some x) ->
+  existsb (renews_ctx c) h = false -> s'.(wr) c = Some (Some x).
+Proof. exact wire_first_kept_proof. Qed.
+Print Assumptions wire_first_kept.
+(* ONE traced operation, whatever it does, hands its trace to the wrapper of a fresh call
+   context without a crash; the wrapper holds it iff the operation delivered one (once_per_op
+   is what makes this safe) *)
+Theorem wire_builder_safe : forall fwd s c nm l t status,
+  s.(wr) c = Some None ->
+  exists s', deliver_wire fwd s c (brun nm l).(b_calls) t status = Some s' /\
+             s'.(wr) c = match (brun nm l).(b_calls) with [] => Some None | _ => Some (Some (t, status)) end.
+Proof. exact wire_builder_safe_proof. Qed.
+Print Assumptions wire_builder_safe.
+(* the Tracer behind the wrappers sees exactly the forwarded completions (so the Tracer
+   theorems above apply to it) *)
+Theorem wire_forwards : forall fwd h s s',
+  wrun_from fwd s h = Some s' -> s'.(w_tr) = fold_left step (wire_tracer_acts fwd h) s.(w_tr).
+Proof. exact wire_forwards_proof. Qed.
+Print Assumptions wire_forwards.
+
 (* ---- non-vacuity ---- *)
 Definition a := bs "a".
 Definition b := bs "b".
@@ -224,3 +329,80 @@ Example ex_tracer_oracle :
   tallowed [Init a] ss [CtxDone 0] [0] [a] ([(2, 1)], [(2, 2)])%Z = false /\
   tallowed [Init a] ss [CtxDone 0] [0] [a] ([(4, 0)], [(2, 1)])%Z = false.
 Proof. vm_compute. repeat split; reflexivity. Qed.
+
+(* ---- the call sites ---- *)
+(* a handler that declares trailer 1, writes, sets trailer 1 and the undeclared (prefixed)
+   trailer 2: delivered once, with both trailers; nothing changes afterwards *)
+Definition ex_handler : sexch :=
+  mkSX (mkBody false [] 0) true [HDeclare 1; HWrite 1 false; HSet false false 1 7; HSet true false 2 8].
+Example ex_server_trailers :
+  server_undisturbed ex_handler /\
+  (mwrun a (server_script ex_handler)).(m_snaps) = [[(1, [7]); (2, [8])]] /\
+  (mwrun a (server_script ex_handler)).(m_cell) = [(1, [7]); (2, [8])] /\
+  map t_events (mwrun a (server_script ex_handler)).(m_b).(b_calls) = [[TReqStart; TRespStart; TRespData 0; TRespEnd 0]].
+Proof. vm_compute. repeat split; reflexivity. Qed.
+(* recording the end of the body BEFORE the trailers (seeded C16-7) is a different list: the
+   collector sees the seeded declared key only, and the map changes after the delivery *)
+Example ex_end_before_trailers :
+  let acts := [MCell [(1, [])]; MAdd ERespStart; MAdd ERespData; MAdd (ERespEnd 0); MCell [(1, [7]); (2, [8])]; MBuild] in
+  ~ mutations_precede_finish acts /\
+  (mwrun a acts).(m_snaps) = [[(1, [])]] /\ (mwrun a acts).(m_cell) = [(1, [7]); (2, [8])].
+Proof.
+  split; [|vm_compute; split; reflexivity].
+  intros W. apply (W [MCell [(1, [])]; MAdd ERespStart; MAdd ERespData] (MAdd (ERespEnd 0))
+                    [MCell [(1, [7]); (2, [8])]; MBuild] [(1, [7]); (2, [8])] eq_refl eq_refl).
+  left. reflexivity.
+Qed.
+(* the code as it is: when a CANCELLATION (or a request-body error) ends the operation while
+   the handler is still running, the trace is delivered at once and the handler's epilogue
+   still writes the trailers into the response the delivered trace points to — the
+   hypothesis of delivered_with_trailers is needed *)
+Definition ex_cancelled : sexch :=
+  mkSX (mkBody false [] 0) true [HWrite 1 false; HCancel; HSet true false 2 8].
+Example ex_cancel_then_trailers :
+  ~ server_undisturbed ex_cancelled /\
+  (mwrun a (server_script ex_cancelled)).(m_snaps) = [[]] /\
+  (mwrun a (server_script ex_cancelled)).(m_cell) = [(2, [8])] /\
+  map t_events (mwrun a (server_script ex_cancelled)).(m_b).(b_calls) = [[TReqStart; TRespStart; TRespData 0; TCanceled]].
+Proof. split; [intros H; discriminate H|]. vm_compute. repeat split; reflexivity. Qed.
+(* client: the transport puts the trailers in place before io.EOF; cancel after the end is ignored *)
+Definition ex_call : cexch :=
+  mkCX (mkBody true [1] 0) 1 0 (mkBody true [2] 0) [(3, [9])] [CRead; CRead; CCancel].
+Example ex_client_trailers :
+  (mwrun a (client_script ex_call)).(m_snaps) = [[(3, [9])]] /\
+  map t_events (mwrun a (client_script ex_call)).(m_b).(b_calls)
+  = [[TReqStart; TReqData 0; TReqEnd 0; TRespStart; TRespData 0; TRespData 1; TRespEnd 0]].
+Proof. vm_compute. split; reflexivity. Qed.
+
+(* ---- fetchTrace ---- *)
+(* the second outcome for the same test finds the slot cleared by the first fetch: the trace
+   the first one stored stays (seeded C16-8 stores nil here) *)
+Example ex_second_fetch :
+  let s := frunf [FInit a; FComplete a 7; FOutcome a true; FOutcome a true; FComplete a 8] in
+  (s.(f_stored) a, s.(f_tr).(slots) a, s.(f_live)) = (Some 7, None, []).
+Proof. vm_compute. reflexivity. Qed.
+(* completion after the fetch began; a success outcome stores nothing *)
+Example ex_late_fetch :
+  let s := frunf [FInit a; FOutcome a true; FInit b; FOutcome b false; FComplete b 5; FComplete a 7] in
+  (s.(f_stored) a, s.(f_stored) b) = (Some 7, None).
+Proof. vm_compute. reflexivity. Qed.
+(* the code as it is: a fetch goroutine orphaned by Clear+Init gives up after TraceTimeout and
+   its unconditional Clear removes the name's NEW, completed slot; the next fetch fails *)
+Example ex_timeout_clears_new_slot :
+  let s := frunf [FInit a; FOutcome a true; FClear a; FInit a; FComplete a 7; FTimeout; FOutcome a true] in
+  (s.(f_stored) a, s.(f_tr).(slots) a) = (None, None).
+Proof. vm_compute. reflexivity. Qed.
+
+(* ---- wire wrapper ---- *)
+Example ex_wire_once :
+  match wrun true [WNew 0 true; WInit a; WComplete 0 a 7 200; WExamine 0] with
+  | Some s => (s.(wr) 0, s.(w_seen), (s.(w_tr)).(slots) a) = (Some (Some (7, 200)), [(200, true)], Some (mkSlot 0 true 7))
+  | None => False end.
+Proof. vm_compute. reflexivity. Qed.
+Example ex_wire_twice : wrun true [WNew 0 true; WComplete 0 a 7 200; WComplete 0 a 8 200] = None.
+Proof. vm_compute. reflexivity. Qed.
+Example ex_wire_no_wrapper :
+  match wrun true [WInit a; WComplete 0 a 7 200; WComplete 0 a 8 200; WExamine 0] with
+  | Some s => (s.(wr) 0, s.(w_seen), (s.(w_tr)).(slots) a) = (None, [(0, false)], Some (mkSlot 0 true 7))
+  | None => False end.
+Proof. vm_compute. reflexivity. Qed.
